@@ -223,6 +223,15 @@ impl Ignore {
                 Arc::downgrade(&ig_arc),
             );
         }
+        // Parent matchers are cached and shared between the roots of a walk,
+        // but the absolute base is specific to the root they are added for:
+        // a matcher taken from the cache carries the base of the root it
+        // was first built for.
+        if ig.0.absolute_base.as_ref() != Some(&absolute_base) {
+            let mut inner = (*ig.0).clone();
+            inner.absolute_base = Some(absolute_base.clone());
+            ig = Ignore(Arc::new(inner));
+        }
         (ig, errs.into_error_option())
     }
 
